@@ -424,10 +424,19 @@ class NbSession:
         self.ops.append(dict(op='detach', ln=ln, rank=r, expect=exp))
         if exp == 0:
             self.attached[r] = None
+            if hasattr(self, 'bput_log'):
+                self.bput_log[r] = []
+
+    def abuf_hole(self, r):
+        """a buffered put that is no longer pending was posted BEFORE one that still is: the pool of the library
+        (which reclaims space from the tail only, finding F7) cannot give that space back yet"""
+        log = getattr(self, 'bput_log', {}).get(r, [])
+        pend = [any(q is p for p in self.pending[r]) for q in log]
+        return any((not pend[i]) and any(pend[i + 1:]) for i in range(len(log)))
 
     def do_inq_buffer(self, r):
         ln = self.emit('%d inq_buffer %d' % (r, self.f))
-        self.ops.append(dict(op='inqbuf', ln=ln, rank=r, attached=self.attached[r],
+        self.ops.append(dict(op='inqbuf', ln=ln, rank=r, attached=self.attached[r], hole=self.abuf_hole(r),
                              pending_bytes=sum(q.nbytes for q in self.pending[r] if q.kind == 'bput')))
 
     def do_inq_nreqs(self, r, f3=False):
@@ -485,12 +494,17 @@ class NbSession:
                     exp_rc = EINSUFFBUF; queued = False
         q.exp_rc = exp_rc
         q.queued_spec = queued
+        q.spec_hole = self.abuf_hole(r)
         q.spec_attached = self.attached[r]
         q.spec_pending_bytes = sum(p.nbytes for p in self.pending[r] if p.kind == 'bput')
         self.reqs[(r, q.line)] = q
         self.ops.append(dict(op='post', ln=q.line, rank=r, req=q))
         if queued:
             self.pending[r].append(q)
+            if kind == 'bput':
+                if not hasattr(self, 'bput_log'):
+                    self.bput_log = {}
+                self.bput_log.setdefault(r, []).append(q)
         else:
             self.slots_free[r].append(q.slot)
         return q
@@ -1332,7 +1346,7 @@ def judge(sess, iv):
             live[(r, q.slot)] = dict(q=q, img=None, known=False)
             if rc != q.exp_rc:
                 if q.kind == 'bput' and rc == EINSUFFBUF and q.exp_rc == 0:
-                    fail('bput-refused', 'F7:bput-refused-although-space', ln, r,
+                    fail('bput-refused', 'F7:bput-refused-although-space' if q.spec_hole else 'bput-refused-wrong', ln, r,
                          'bput of %d bytes refused (NC_EINSUFFBUF) with %d bytes attached and %d bytes of pending bputs: %s'
                          % (q.nbytes, q.spec_attached, q.spec_pending_bytes, sess.lines[ln - 1]))
                 elif rc == ERANGE:
@@ -1438,7 +1452,7 @@ def judge(sess, iv):
                 if rcu != 0 or rcs != 0 or size != o['attached']:
                     fail('inq-buffer-size', 'inq-buffer-size', o['ln'], o['rank'], 'rc %d/%d size %d expected %d' % (rcu, rcs, size, o['attached']))
                 elif usage != o['pending_bytes']:
-                    fail('usage', 'F7:usage-not-pending-bytes', o['ln'], o['rank'],
+                    fail('usage', 'F7:usage-not-pending-bytes' if (o.get('hole') and usage > o['pending_bytes']) else 'usage-wrong', o['ln'], o['rank'],
                          'inq_buffer_usage = %d, pending buffered puts hold %d bytes' % (usage, o['pending_bytes']))
         elif k in ('attach', 'detach'):
             t = iv.get(o['ln'], o['rank'])
